@@ -242,6 +242,7 @@ def h_step_sack_abandon(ctx, q, ngaps, parked=False):
         _check_inv(ctx, t, "pre")
         s = sctp.SackChunk()
         adv = ctx.int("cum_advance", -1, q + 1)
+        ctx.assume(adv <= q + (1 if parked else 0), "the peer acknowledges only TSNs that were assigned")
         s.cumulative_tsn = (base - 1 + adv) & U32
         s.advertised_rwnd = 131072
         s.gaps = [(ctx.int("gap%d_start" % g, 1, q + 2), ctx.int("gap%d_end" % g, 1, q + 2)) for g in range(ngaps)]
